@@ -25,7 +25,7 @@ TIMEOUT = {"quick": 900, "thorough": 7200}
 POOL: list = []
 
 
-def run_case(ctx, gd, q, via="outcomes"):
+def run_case(ctx, gd, q, via="outcomes", cards=None):
     from y0.algorithm.identify import Identification, Query, identify, identify_outcomes
     from y0.algorithm.identify.utils import Unidentifiable
     from y0.dsl import Variable
@@ -33,7 +33,7 @@ def run_case(ctx, gd, q, via="outcomes"):
     g = gg.to_nx(gd)
     X = {Variable(x) for x in q["X"]}
     Y = {Variable(y) for y in q["Y"]}
-    kernel.LOG.reset_case({"graph": gd, "X": q["X"], "Y": q["Y"], "via": via})
+    kernel.LOG.reset_case({"graph": gd, "X": q["X"], "Y": q["Y"], "via": via, **({"cards": cards} if cards else {})})
     res = None
     try:
         res = gq.call_id(g, {"X": q["X"], "Y": q["Y"], "Z": []}, via, prop=PROP)
@@ -133,6 +133,41 @@ def run_shard(ctx, K=None):
             else:
                 pool[rng.randrange(len(pool))] = (gd, q)
     ctx.extras["feedback"] = fb
+    # wide graphs (10..14 nodes): the algorithm works on the whole graph; the exact models keep a handful of live
+    # variables (the query's and a few random others) and make the rest constants, so every estimand is still evaluated
+    wide = {"cases": 0, "estimands": 0}
+    for _ in range(ctx.share({"quick": 800, "thorough": 16000}[ctx.tier])):
+        n = rng.randint(10, 14)
+        if rng.random() < 0.6:
+            # a small graph at the usual densities, embedded in a wide one whose other nodes are constants
+            core = gg.random_admg(rng, rng.choice([3, 4, 4, 5]))
+            q = gq.random_query(rng, core)
+            if q is None:
+                continue
+            gd, pad = gg.embed_wide(core, rng, n)
+            wide["cases"] += 1
+            res = run_case(ctx, gd, q, via=rng.choice(("outcomes", "identify", "single", "from_parts")),
+                           cards={w: 1 for w in pad})
+            wide["estimands"] += res is not None
+            continue
+        gd = gg.random_admg(rng, n, hostile=rng.choice(["none", "bow", "bichain", "isolated"]),
+                            p_di=rng.choice((0.12, 0.2, 0.3)), p_bi=rng.choice((0.05, 0.1, 0.18)))
+        q = gq.random_query(rng, gd)
+        if q is None or len(q["X"]) + len(q["Y"]) > 4:
+            continue
+        live = set(q["X"]) | set(q["Y"])
+        # prefer neighbours of the query's variables: they decide what the estimand must adjust for
+        near = sorted({a if b in live else b for a, b in gd["di"] + gd["bi"] if (a in live) != (b in live)})
+        rng.shuffle(near)
+        rest = [v for v in gd["nodes"] if v not in live and v not in near]
+        rng.shuffle(rest)
+        for v in (near + rest)[: max(0, 6 - len(live))]:
+            live.add(v)
+        cards = {v: 1 for v in gd["nodes"] if v not in live}
+        wide["cases"] += 1
+        res = run_case(ctx, gd, q, via=rng.choice(("outcomes", "identify", "single", "from_parts")), cards=cards)
+        wide["estimands"] += res is not None
+    ctx.extras["wide_graphs"] = wide
     # edit histories: the same graph object is queried, edited in place and queried again
     _edit_histories(ctx, rng)
     exs = example_graphs()
@@ -157,7 +192,7 @@ def replay(case):
 
     gd = case["graph"]
     gd = {"nodes": gd["nodes"], "di": gd["di"], "bi": gd["bi"]}
-    run_case(_C(), gd, {"X": case["X"], "Y": case["Y"]}, via=case.get("via", "outcomes"))
+    run_case(_C(), gd, {"X": case["X"], "Y": case["Y"]}, via=case.get("via", "outcomes"), cards=case.get("cards"))
 
 
 def install_for_suite():
